@@ -695,3 +695,107 @@ func fixedArrayUnboundedIndex(p *Program, fn *ssa.Function) (int, []Finding) {
 	}
 	return n, hits
 }
+
+// ---------------------------------------------------------------------------------------------
+// COORDINATE-COVERAGE: a function that inspects a struct-typed input (an extension-field
+// element, given through a slice or pointer parameter) coordinate by coordinate reads every
+// base-field leaf of it; reading some leaves and never the others means one coordinate is never
+// checked (copy/paste slip in a coordinate-wise loop). A whole-value use (copy, call with the
+// element's address, comparison) covers all its leaves.
+// ---------------------------------------------------------------------------------------------
+
+func leafPaths(t types.Type, prefix string, depth int, out *[]string) {
+	if depth > 6 {
+		*out = append(*out, prefix)
+		return
+	}
+	if st, ok := t.Underlying().(*types.Struct); ok && st.NumFields() > 0 {
+		for i := 0; i < st.NumFields(); i++ {
+			leafPaths(st.Field(i).Type(), prefix+"."+st.Field(i).Name(), depth+1, out)
+		}
+		return
+	}
+	*out = append(*out, prefix)
+}
+
+// coordinateCoverage returns, per parameter index, the leaves of the parameter's element type
+// that are never read although at least one other leaf is.
+func coordinateCoverage(fn *ssa.Function) map[int][]string {
+	res := map[int][]string{}
+	for pi, par := range fn.Params {
+		var elem types.Type
+		switch u := par.Type().Underlying().(type) {
+		case *types.Slice:
+			elem = u.Elem()
+		case *types.Pointer:
+			elem = u.Elem()
+		}
+		if elem == nil {
+			continue
+		}
+		if _, ok := elem.Underlying().(*types.Struct); !ok {
+			continue
+		}
+		var leaves []string
+		leafPaths(elem, "", 0, &leaves)
+		if len(leaves) < 2 {
+			continue
+		}
+		covered := map[string]bool{}
+		var visit func(v ssa.Value, path string, d int)
+		visit = func(v ssa.Value, path string, d int) {
+			if d > 10 || v.Referrers() == nil {
+				return
+			}
+			for _, r := range *v.Referrers() {
+				switch x := r.(type) {
+				case *ssa.IndexAddr:
+					if x.X == v {
+						visit(x, path, d+1)
+					}
+				case *ssa.FieldAddr:
+					visit(x, path+"."+fieldName(x.X.Type(), x.Field), d+1)
+				case *ssa.Slice:
+					visit(x, path, d+1)
+				case *ssa.Phi, *ssa.ChangeType:
+					visit(x.(ssa.Value), path, d+1)
+				case *ssa.DebugRef:
+				case *ssa.Store:
+					if x.Addr == v {
+						continue // written, not read
+					}
+					covered[path+"*"] = true
+				case *ssa.Call:
+					if b, ok := x.Call.Value.(*ssa.Builtin); ok && (b.Name() == "len" || b.Name() == "cap") {
+						continue
+					}
+					covered[path+"*"] = true
+				default:
+					// load, call argument, comparison, ...: the whole sub-object at this path
+					covered[path+"*"] = true
+				}
+			}
+		}
+		visit(par, "", 0)
+		any := false
+		var missing []string
+		for _, l := range leaves {
+			ok := false
+			for c := range covered {
+				pre := strings.TrimSuffix(c, "*")
+				if pre == "" || l == pre || strings.HasPrefix(l, pre+".") {
+					ok = true
+				}
+			}
+			if ok {
+				any = true
+			} else {
+				missing = append(missing, l)
+			}
+		}
+		if any && len(missing) > 0 {
+			res[pi] = missing
+		}
+	}
+	return res
+}
